@@ -376,6 +376,31 @@ class Impl:
         out['hypotest'] = [fl(tb, r[0]), [fl(tb, x) for x in r[1]], [fl(tb, x) for x in r[2]]]
         return out
 
+    def run_reuse(self, seq):
+        """ONE calculator object (per statistic/base) asked about a sequence of tested values: the stubbed statistic returns the
+        (q, qA) of the current step, so every answer must equal what a fresh calculator gives for that step alone"""
+        from pyhf.infer.calculators import AsymptoticCalculator
+        tb = self.tb
+        calcs = {}
+        outs = []
+        for step, c in enumerate(seq):
+            key = (c['kind'], c['base'])
+            if key not in calcs:
+                calcs[key] = AsymptoticCalculator(list(self.obs), self.model, test_stat=c['kind'], calc_base_dist=c['base'])
+            calc = calcs[key]
+            self.q, self.qA = c['q'], c['qA']
+            poi = 0.25 + 0.5 * step
+            try:
+                ts = calc.teststatistic(poi)
+                sb, b = calc.distributions(poi)
+                pv = calc.pvalues(ts, sb, b)
+                ep = calc.expected_pvalues(sb, b)
+                outs.append(dict(teststat=fl(tb, ts), sqrtqmuA=fl(tb, calc.sqrtqmuA_v), pvalues=[fl(tb, x) for x in pv],
+                                 expected=[[fl(tb, x) for x in band] for band in ep]))
+            except Exception as e:
+                outs.append(dict(exception=core.exc_enum(e), msg=str(e)[:200]))
+        return outs
+
     def run_dist(self, d):
         from pyhf.infer.calculators import AsymptoticTestStatDistribution
         tb = self.tb
@@ -759,9 +784,9 @@ def run(ctx):
                     'the numeric normal cdf of each backend is taken as is (its accuracy is property C04): results are compared against '
                     'the backend\'s own cdf at the model\'s arguments',
                     'sqrt of non-square inputs: python math.sqrt as proposer, every entry certified inside Coq by squaring (sqrt_tab_ok, 2^-50)',
-                    'the Gaussian integral (AsymptPhi.gauss_total_stmt: the concrete cdf NPhi x = 1/2 + int_0^x phi tends to 0 at minus '
-                    'infinity) is the single premise of C07_ordering_normal / C07_band_monotone_normal / positivity / Mills bound / '
-                    'log-concavity; symmetry and monotonicity of NPhi and all formula theorems are proved outright (Coquelicot)']
+                    'the Gaussian integral is proved (coq/Gauss.v: gauss_integral, gauss_total; F+G = PI/4 argument in Coquelicot): '
+                    'C07_ordering_normal_unconditional / C07_band_monotone_normal_unconditional / positivity / Mills bound / log-concavity of the '
+                    'concrete cdf NPhi carry no premise; only the standard real-number axioms remain']
     ctx.assumptions += ['IEEE rounding is covered by the comparison tolerance (1e-9 relative on p-values); nan/overflow are not modelled '
                         'beyond nan = value below the cutoff', 'tails beyond 37 sigma are excluded, as in the property statement']
 
@@ -814,6 +839,27 @@ def run(ctx):
                     outs[i] = dict(exception=core.exc_enum(e), msg=str(e)[:200])
             douts = [impl.run_dist(d) for d in dists]
             err_results[be] = impl.run_errors()
+            # one calculator object reused over a sequence of tested values (answers are functions of the current (q, qA))
+            rsel = [i for i in sel if 'exception' not in outs[i] and cases[i]['q'] > 0][: ctx.n(24, 120)]
+            rng2 = __import__('random').Random(ctx.seed * 7919 + bi)
+            rng2.shuffle(rsel)
+            routs = impl.run_reuse([cases[i] for i in rsel])
+            stats['reuse_steps'] = stats.get('reuse_steps', 0) + len(rsel)
+            for step, (i, ro) in enumerate(zip(rsel, routs)):
+                fresh = outs[i]
+                if 'exception' in ro:
+                    inv_fail.setdefault('reuse-raises:' + cases[i]['kind'], []).append(
+                        (cases[i], be, 'step %d of a sequence on ONE calculator object raises %s (%s); a fresh calculator answers' % (step, ro['exception'], ro['msg']), ro))
+                    continue
+                flat = lambda o: [o['teststat'], o['sqrtqmuA']] + list(o['pvalues']) + [x for band in o['expected'] for x in band]
+                fa, fb = flat(ro), flat(fresh)
+                if any((x is None) != (y is None) or (x is not None and abs(x - y) > 1e-12 * max(1.0, abs(y))) for x, y in zip(fa, fb)):
+                    prev = [dict(kind=cases[k]['kind'], base=cases[k]['base'], q=cases[k]['q'], qA=cases[k]['qA']) for k in rsel[:step]
+                            if (cases[k]['kind'], cases[k]['base']) == (cases[i]['kind'], cases[i]['base'])]
+                    inv_fail.setdefault('reuse-differs-from-fresh:' + cases[i]['kind'], []).append(
+                        (dict(cases[i], earlier_calls_on_this_calculator=prev), be,
+                         'after %d earlier call(s) on the same AsymptoticCalculator object, the answers for q=%r, qA=%r are teststat %r, sqrt(qA) %r, p-values %r; a fresh calculator gives teststat %r, sqrt(qA) %r, p-values %r'
+                         % (len(prev), cases[i]['q'], cases[i]['qA'], ro['teststat'], ro['sqrtqmuA'], ro['pvalues'], fresh['teststat'], fresh['sqrtqmuA'], fresh['pvalues']), ro))
             ctx.log('%s: %d implementation runs done' % (be, len(sel)))
             # ---- pass 2: Phi := table of this backend's cdf at the model's arguments ----
             if margs is not None:
@@ -967,7 +1013,7 @@ def _fmt(e):
 
 
 def _jcase(c):
-    d = {k: v for k, v in c.items() if k in ('kind', 'base', 'regime', 'shift', 'cutoff', 'v', 'n')}
+    d = {k: v for k, v in c.items() if k in ('kind', 'base', 'regime', 'shift', 'cutoff', 'v', 'n', 'earlier_calls_on_this_calculator')}
     d['q'], d['qA'] = c['q'], c['qA']
     d['q_hex'], d['qA_hex'] = float(c['q']).hex(), float(c['qA']).hex()
     return d
@@ -984,6 +1030,9 @@ def replay(body):
         if body.get('kind') == 'dist':
             out = impl.run_dist(c)
         else:
+            if c.get('earlier_calls_on_this_calculator'):
+                seq = list(c['earlier_calls_on_this_calculator']) + [dict(kind=c['kind'], base=c['base'], q=c['q'], qA=c['qA'])]
+                print('last call of the sequence on ONE calculator object:', json.dumps(impl.run_reuse(seq)[-1], default=str))
             out = impl.run_case(c)
             ref = mp_reference(c)
             print('formulae (mpmath):', json.dumps(dict(pvalues=[str(x) for x in ref['pvalues']], expected=[[str(x) for x in b] for b in ref['expected']]), indent=1))
